@@ -5,10 +5,7 @@
  * Counters give "exactly once" and ordering facts. (Assumption A3/A5.) */
 #ifndef VF_SPINLOCK_H
 #define VF_SPINLOCK_H
-int vf_lock_held;           /* 1 while the caller holds the lock */
-const void *vf_lock_which;  /* the lock last operated on */
-unsigned vf_acquires, vf_releases, vf_clock;
-unsigned vf_t_acquire, vf_t_release; /* clock of the last acquire / release */
+#include "env/spinlock_ghost.h"
 
 static inline void ABTD_spinlock_acquire(ABTD_spinlock *p_lock)
 __CPROVER_requires(vf_lock_held == 0)
